@@ -153,13 +153,36 @@ let verdict case impl =
      | ("abort" | "timeout" | "panic") :: _ ->
        "viol crash=" ^ String.concat "_" status ^ " len=" ^ string_of_int len
      | _ ->
-       let bound = int_of_n (alloc_bound (n_of_i len)) in
-       if maxreq > bound then Printf.sprintf "viol alloc=%d bound=%d len=%d" maxreq bound len
+       (* C08_alloc: R = 1 without a codec; 255 for LZ4 (the decoder refuses larger claims since
+          d6bbe9c); a Snappy body sizes its own buffer inside the snap crate (residual): not judged *)
+       let compressed = compression && len > 1 && (int_of_n (List.nth stream 1)) land 1 = 1 in
+       let snappy = compressed && mode.[1] = 's' in
+       let expansion = if compressed then 255 else 1 in
+       let bound = int_of_n (alloc_bound (n_of_i (expansion * len))) in
+       if maxreq > bound && not snappy then Printf.sprintf "viol alloc=%d bound=%d len=%d" maxreq bound len
        else begin
          let (o, c) = decode decompress ft v2 compression stream in
          let model = match o with
            | OErr (st, e) -> "err " ^ stage_name st ^ " " ^ err_name e
-           | ODone f -> "ok " ^ r_frame f in
+           | ODone f ->
+             (* typed rows (rows_iter::<Row>() until the first error) and the tablet payload *)
+             let tv = (match f.d_resp with
+                 | RResult (ResRows r) when r.rr_cols <> [] ->
+                   (match typed_rows_first_error r.rr_cols r.rr_rows N0 with
+                    | None -> "ok" | Some i -> "err@" ^ dec_of_n i)
+                 | _ -> "-") in
+             let tb = (match f.d_ext.x_payload with
+                 | None -> "-"
+                 | Some p ->
+                   (match payload_lookup tablets_key p with
+                    | None -> "none"
+                    | Some v ->
+                      (match tablet_payload v with
+                       | Ok ((_, _), reps) -> "ok:" ^ string_of_int (List.length reps)
+                       | Err TbDeserialization -> "err:Deserialization"
+                       | Err TbShardNum -> "err:ShardNum"
+                       | Err TbWrongTokenRange -> "err:WrongTokenRange"))) in
+             "ok " ^ r_frame f ^ " tv=" ^ tv ^ " tb=" ^ tb in
          let unmodelled = (match o with OErr (_, EUnmodelled) -> true | _ -> false) in
          let impl_s = String.concat " " status in
          let truncated = kind.[0] = 'T' || kind.[0] = 'U' in
@@ -169,7 +192,7 @@ let verdict case impl =
          else if impl_s = model then begin
            (* correspondence of the ghost counters with the measurements *)
            let malloc = int_of_n c.c_alloc in
-           if maxreq > malloc + 64 * len + 65536 then
+           if maxreq > malloc + 64 * len + 65536 && not compressed then
              Printf.sprintf "diff alloc-accounting maxreq=%d model_alloc=%d len=%d" maxreq malloc len
            else if int_of_n c.c_depth > int_of_n depth_bound then "viol depth=" ^ dec_of_n c.c_depth
            else "ok"
@@ -224,7 +247,52 @@ let rec nest k t = if k <= 0 then t else nest (k - 1) (TList (false, t))
 let gen_cols global n : colspec list =
   let g = (gen_utf8 (), gen_utf8 ()) in
   List.init n (fun _ -> { cs_table = (if global then g else (gen_utf8 (), gen_utf8 ())); cs_name = gen_utf8 (); cs_type = gen_type 3 })
+let be32i (v : int) : n list = List.map nb [(v lsr 24) land 255; (v lsr 16) land 255; (v lsr 8) land 255; v land 255]
+let rnd k = List.init k (fun _ -> nb (below 256))
+let item (v : n list) : n list = be32i (List.length v) @ v
+let fixed_width = function
+  | TNative (Boolean | TinyInt) -> Some 1 | TNative SmallInt -> Some 2
+  | TNative (Int | Float | Date) -> Some 4
+  | TNative (BigInt | Counter | Timestamp | Double | Time) -> Some 8
+  | TNative (Uuid | Timeuuid) -> Some 16 | _ -> None
+(* bytes that the typed deserialiser accepts for the type (mostly) *)
+let rec gen_val (t : coltype) : n list =
+  match t with
+  | TNative n ->
+    (match n with
+     | Ascii -> List.init (below 6) (fun _ -> nb (97 + below 26))
+     | Text -> gen_utf8 ()
+     | Boolean -> [nb (below 2)] | Blob | Varint -> gen_bytes 9
+     | Counter | BigInt | Timestamp | Double -> rnd 8
+     | Time -> [N0; N0] @ rnd 6 |> fun l -> (match l with a :: b :: c :: r -> a :: b :: nb (below 64) :: r | l -> l)
+     | Date | Float | Int -> rnd 4
+     | Decimal -> rnd 4 @ gen_bytes 6
+     | Duration -> [nb (below 128); nb (below 128); nb (below 128)]
+     | Inet -> if chance 1 2 then rnd 4 else rnd 16
+     | SmallInt -> rnd 2 | TinyInt -> rnd 1 | Timeuuid | Uuid -> rnd 16)
+  | TList (_, e) | TSet (_, e) -> let k = below 4 in be32i k @ List.concat (List.init k (fun _ -> item (gen_val e)))
+  | TMap (_, k, v) -> let c = below 3 in be32i c @ List.concat (List.init c (fun _ -> item (gen_val k) @ item (gen_val v)))
+  | TVector (e, d) ->
+    (match fixed_width e with
+     | Some _ -> List.concat (List.init (int_of_n d) (fun _ -> gen_val e))
+     | None -> gen_bytes 10)
+  | TTuple es -> List.concat (List.map (fun e -> if chance 1 6 then be32i 0xFFFFFFFF else item (gen_val e)) es)
+  | TUdt (_, _, _, fs) -> List.concat (List.map (fun (_, e) -> if chance 1 6 then be32i 0xFFFFFFFF else item (gen_val e)) fs)
+let gen_cell_for (t : coltype) : cell =
+  match below 10 with 0 -> None | 1 -> Some (gen_bytes 12) | _ -> Some (gen_val t)
 let gen_cell () : cell = if chance 1 5 then None else Some (gen_bytes 12)
+(* the "tablets-routing-v1" payload entry: tuple<bigint, bigint, list<tuple<uuid, int>>> without the outer length *)
+let gen_tablet_payload () : n list =
+  let tok () = rnd 8 in
+  let f, l = (if chance 3 4 then ([nb 0x10] @ rnd 7, [nb 0x40] @ rnd 7) else (tok (), tok ())) in
+  let k = below 4 in
+  let rep () = item (item (rnd 16) @ item ((if chance 1 8 then [nb 0xFF] else [N0]) @ rnd 3)) in
+  let lst = be32i k @ List.concat (List.init k (fun _ -> rep ())) in
+  match below 8 with
+  | 0 -> item f @ item l                      (* list missing: empty iterator *)
+  | 1 -> item f @ item l @ be32i 0xFFFFFFFF   (* null list *)
+  | 2 -> item f @ item (rnd 7) @ item lst     (* wrong width *)
+  | _ -> item f @ item l @ item lst
 let gen_sc () : schema_change =
   let ct = pick [CtCreated; CtUpdated; CtDropped] in
   match below 5 with
@@ -291,7 +359,8 @@ let gen_response (ft : features) (v2 : bool) (deep : int) : response =
         List.mapi (fun i c -> if i = 0 then { c with cs_type = nest deep c.cs_type } else c) cols0 else cols0 in
     let cols = if nomd then [] else cols in
     let nrows = below 5 in
-    let rows = if cols = [] then [] else List.init nrows (fun _ -> List.init ncols (fun _ -> gen_cell ())) in
+    let rows = if cols = [] then [] else
+        List.init nrows (fun _ -> List.map (fun c -> if deep > 0 then gen_cell () else gen_cell_for c.cs_type) cols) in
     RResult (ResRows {
         rr_hdr = { rh_col_count = nb ncols; rh_global = global; rh_no_metadata = nomd; rh_metadata_changed = changed;
                    rh_paging = (if chance 1 3 then Some (gen_bytes 16) else None) };
@@ -304,7 +373,8 @@ let gen_frame (ft : features) (v2 : bool) (deep : int) : dframe =
   let flags = (if tr then 2 else 0) + (if w then 8 else 0) + (if pl then 4 else 0) + (if chance 1 10 then 0x10 else 0) in
   let x = { x_trace = (if tr then Some (List.init 16 (fun _ -> nb (below 256))) else None);
             x_warnings = (if w then gen_strlist 3 else []);
-            x_payload = (if pl then Some (dedup_keys (List.init (below 3) (fun _ -> (gen_utf8 (), gen_bytes 10)))) else None) } in
+            x_payload = (if pl then Some (dedup_keys ((if chance 1 2 then [(bytes_of_str "tablets-routing-v1", gen_tablet_payload ())] else [])
+                                                     @ List.init (below 3) (fun _ -> (gen_utf8 (), gen_bytes 10)))) else None) } in
   let opcode = match resp with
     | RError _ -> 0 | RReady -> 2 | RAuthenticate _ -> 3 | RSupported _ -> 6 | RResult _ -> 8 | REvent _ -> 12
     | RAuthChallenge _ -> 14 | RAuthSuccess _ -> 16 in
